@@ -2,7 +2,8 @@
 From stdpp Require Import gmap list.
 From Coq Require Import ZArith String.
 From OL Require Import theories.Store theories.Abci theories.Aiming proofs.AimingProofs
-  gen.Facts_Aiming theories.Caches gen.Facts_Caches theories.Globals gen.Facts_Globals.
+  gen.Facts_Aiming theories.Caches gen.Facts_Caches theories.Globals gen.Facts_Globals
+  theories.Options proofs.OptionsProofs gen.Facts_Options.
 Local Open Scope string_scope.
 
 (* for every sequence of consensus hooks, every family of store-use programs, and every
@@ -72,3 +73,61 @@ Theorem C07_fact_no_unclassified_memory :
   unknown_fields cache_fields = [] /\ closure_vars = [] /\ unknown_globals written_globals = [].
 Proof. vm_compute. repeat split; reflexivity. Qed.
 Print Assumptions C07_fact_no_unclassified_memory.
+
+(* ---------- the in-memory copies of governance options (theories/Options.v) ----------
+   The store objects shared by the mempool and the consensus connection hold copies of the options in
+   memory; handlers read the copy (every Validate prices the fee with it).  For every history of ABCI calls
+   about one option — block starts with or without a reload, finalisations, commits, restarts, and any
+   number of mempool checks of finalize / creation transactions at any position: if no mempool-reachable
+   run of an update function writes the copy, every consensus read returns the option as persisted in the
+   deliver state, and the reads are those of the history without the mempool calls. *)
+Theorem C07_option_reads_are_the_persisted_option : forall evs s, copy s = rec_d s -> disciplined evs = true ->
+  orun s evs = srun s evs.
+Proof. exact options_coherent. Qed.
+Print Assumptions C07_option_reads_are_the_persisted_option.
+
+Theorem C07_option_checks_invisible : forall evs s, disciplined evs = true ->
+  snd (orun s evs) = snd (orun s (strip_ochecks evs)).
+Proof. exact option_checks_invisible. Qed.
+Print Assumptions C07_option_checks_invisible.
+
+(* a copy that BeginBlock reloads is right again from that BeginBlock on *)
+Theorem C07_option_reload_heals : forall post s, disciplined post = true ->
+  snd (orun s (OBegin true :: post)) = snd (srun s (OBegin true :: post)).
+Proof. exact option_reload_heals. Qed.
+
+(* the discipline is necessary in both of its halves; the first witness is the defect that was in /repo
+   (FinalizeProposal.ProcessCheck ran the update function in update mode: repaired, 58a24fe) *)
+Theorem C07_option_update_mode_in_check_is_visible : exists evs s, copy s = rec_d s /\ disciplined evs = false /\
+  snd (orun s evs) <> snd (orun s (strip_ochecks evs)).
+Proof. exact option_applying_check_visible. Qed.
+Theorem C07_option_early_setter_is_visible : exists evs s, copy s = rec_d s /\ disciplined evs = false /\
+  snd (orun s evs) <> snd (orun s (strip_ochecks evs)).
+Proof. exact option_early_write_visible. Qed.
+
+(* a copy with no reader on a consensus path cannot show, whoever writes it (the ONS options copy) *)
+Theorem C07_option_unread_copy_invisible : forall evs s, no_reads evs = true -> snd (orun s evs) = [].
+Proof. exact option_unread_copy_invisible. Qed.
+
+(* tie to the source (regenerated on every run).  The discipline holds in /repo because
+   (1) the copies are used directly only inside methods of the object that holds them;
+   (2) every caller of such a method is audited (theories/Options.v audited_call): setters are called at
+       start-up, by BeginBlock (fee option) and by the governance update functions of action/govUpdate.go;
+       getters by the Validate methods (fee option) and the listed block hooks — a handler that starts
+       reading a copy (pricing a domain from DomainStore.GetOptions) is not in the table;
+   (3) inside the update functions no setter precedes the validate-only return;
+   (4) update mode is requested only by FinalizeProposal.ProcessDeliver: ProcessCheck and the creation
+       of a proposal pass ValidateOnly. *)
+Theorem C07_fact_option_discipline :
+  foreign_uses option_field_uses = [] /\ unaudited_calls option_accessor_calls = [] /\
+  early_writes option_accessor_calls = [] /\ unaudited_modes update_mode_calls = [].
+Proof. vm_compute. repeat split; reflexivity. Qed.
+
+Example C07_fact_option_discipline_nonvacuous :
+  (20 <=? List.length option_field_uses)%nat = true /\ (100 <=? List.length option_accessor_calls)%nat = true /\
+  List.length update_mode_calls = 4%nat /\
+  (* the audit refuses what the seeded changes of round five did *)
+  unaudited_calls [("data/ons.DomainStore.GetOptions", "action/ons.runCreate", false)] <> [] /\
+  early_writes [("data/fees.Store.SetupOpt", "action.feeOptionminFeeDecimal", true)] <> [] /\
+  unaudited_modes [("action/governance.runFinalizeProposal", "<function value>", "action.ValidateAndUpdate")] <> [].
+Proof. vm_compute. repeat split; discriminate. Qed.
